@@ -182,7 +182,7 @@ claim("C10",
       "HashSet<Ident> is a shim with a ghost set view; in resolve_guards lookup_in is external (it is under contract in name_lookup, where Module::lookup is external: the mutual recursion is cut at the contracts, its termination is not proved); resolve_ident_wildcard, resolve_ident_fallback, ambiguous_error, expr_of_func are "
       "external; the drain loop over named parameters is replaced by its contract (stated in the evidence).")
 
-prop("C09", ["ident_quote", "ids_names", "rel_names", "ident_regex", "dialect_flags", "literals", "select_shape", "interp_ident", "lex_end_expr", "sql_relations", "anchor_names", "sstring_cols", "literal_rows"], select={"literal_rows": lambda n: n.split(".", 1)[1] in ("LR1", "LR1i"), "sstring_cols": lambda n: n.split(".", 1)[1] in ("PN1", "PN2", "PN3") or n.split(".", 1)[1].startswith("name_one_item"), "sql_relations": lambda n: n.split(".", 1)[1] in ("RA1", "RA2", "table_alias_slice.safety"), "lex_end_expr": lambda n: ".continues." in n, "select_shape": lambda n: n.split(".", 1)[1] in ("SS2a", "SS2b", "SS2c", "translate_select_item.safety"), "dialect_flags": lambda n: n.rsplit(".", 1)[1] == "ident_quote", "literals": lambda n: n.split(".", 1)[1] in ("FM1", "FM2", "format_slice.safety")},
+prop("C09", ["ident_quote", "ids_names", "rel_names", "ident_regex", "dialect_flags", "literals", "select_shape", "interp_ident", "lex_end_expr", "sql_relations", "anchor_names", "sstring_cols", "literal_rows", "relation_literal"], select={"literal_rows": lambda n: n.split(".", 1)[1] in ("LR1", "LR1i"), "sstring_cols": lambda n: n.split(".", 1)[1] in ("PN1", "PN2", "PN3") or n.split(".", 1)[1].startswith("name_one_item"), "sql_relations": lambda n: n.split(".", 1)[1] in ("RA1", "RA2", "table_alias_slice.safety"), "lex_end_expr": lambda n: ".continues." in n, "select_shape": lambda n: n.split(".", 1)[1] in ("SS2a", "SS2b", "SS2c", "translate_select_item.safety"), "dialect_flags": lambda n: n.rsplit(".", 1)[1] == "ident_quote", "literals": lambda n: n.split(".", 1)[1] in ("FM1", "FM2", "format_slice.safety")},
      not_covered="content of the keyword tables; freshness of generated names against user names that are not registered yet; "
                  "the order in which assign_names visits the declarations (a user table named like a generated name is only protected if it is visited first)")
 claim("C09",
@@ -193,7 +193,7 @@ claim("C09",
       "loaded id (IG1-3, SK1); names of one generator are pairwise distinct (NG1); at a pipeline split a re-declared column gets a name different from "
       "every name given at that split and the name is recorded (AS1a-c); every CTE gets a name different from the names of all CTEs named before it and every "
       "relation instance of a SELECT an alias different from those given before in that SELECT, while a name / alias that is present and unused is kept - the "
-      "user's table keeps its name (rel_names AN1-4, RN1-4; partial correctness: termination of the two regenerate-until-unused loops is not proved). the pattern of valid_ident() - compiled from the source literal into a spec function on every run - matches only `*` and texts of lower-case letters, digits, `_`, `$` that do not start with a digit, and matches every ordinary lower-case name (ident_regex RX1-3, for all character sequences). a keyword or literal word ends only where a bare name cannot continue: letters (also outside ASCII), digits and `_` continue it, so a column called `importé` or `nullable` is lexed as that name (lex_end_expr EE.continues rows). the alias of a table in FROM is left out only when the table's own name - the whole last part, dots inside a quoted name included - is that alias, so `<alias>.<column>` references bind (sql_relations RA1-2). the name recorded for a column (AnchorContext::ensure_column_name, load_names, whole): a column that brings a name along from its relation is recorded under exactly that name, a recorded name is never replaced, a generated name goes only to a column without either, and naming one column touches no other (anchor_names EN1-5, LN1). the name declared for an un-aliased column of an s-string relation is the identifier's NAME, not its SQL rendering with quotes (sstring_cols PN1-3). NOT proved: content of the keyword tables, capture of not-yet-registered "
+      "user's table keeps its name (rel_names AN1-4, RN1-4; partial correctness: termination of the two regenerate-until-unused loops is not proved). the pattern of valid_ident() - compiled from the source literal into a spec function on every run - matches only `*` and texts of lower-case letters, digits, `_`, `$` that do not start with a digit, and matches every ordinary lower-case name (ident_regex RX1-3, for all character sequences). a keyword or literal word ends only where a bare name cannot continue: letters (also outside ASCII), digits and `_` continue it, so a column called `importé` or `nullable` is lexed as that name (lex_end_expr EE.continues rows). the alias of a table in FROM is left out only when the table's own name - the whole last part, dots inside a quoted name included - is that alias, so `<alias>.<column>` references bind (sql_relations RA1-2). the name recorded for a column (AnchorContext::ensure_column_name, load_names, whole): a column that brings a name along from its relation is recorded under exactly that name, a recorded name is never replaced, a generated name goes only to a column without either, and naming one column touches no other (anchor_names EN1-5, LN1). the name declared for an un-aliased column of an s-string relation is the identifier's NAME, not its SQL rendering with quotes (sstring_cols PN1-3). the SELECT that defines the columns of a relation literal without rows aliases them with translate_ident_part, like every reference to them (relation_literal RL1-2). NOT proved: content of the keyword tables, capture of not-yet-registered "
       "user names.",
       "regex, HashSet, OnceLock tables, dyn DialectHandler, sqlparser Ident constructors, format! are shims by contract.")
 
@@ -240,7 +240,7 @@ def _safety(name):
 
 
 _ALL_UNITS = ["take_range", "sort_take", "split_order", "window_frame", "dialect_select", "ident_quote", "ids_names", "toposort", "rq_tables",
-              "select_shape", "span_units", "sql_prec", "prql_prec", "literals", "set_ops", "desugar", "resolve_guards", "lex_strings", "limit_clause", "static_eval", "operator_tpl", "rel_names", "lower_cols", "vec_utils", "group_take", "flatten_sort", "star_exclude", "std_arity", "limit_select", "rq_shape", "star_cols", "func_env", "json_lits", "cte_define", "type_meet", "fmt_strings", "concat_ops", "sstring_query", "sstring_cols", "lineage_except", "sort_infer", "setop_pairs", "setops_reach", "tuple_unpack", "resolver_unwraps", "name_lookup", "frame_decls", "select_cols", "lower_transform", "sort_names", "positional_map", "fmt_interp", "datetime_lit", "lex_numbers", "rq_fold", "dialect_flags", "cid_inline", "module_names", "compose_errors", "lex_end_expr", "fmt_names", "header_args", "literal_rows", "tuple_helpers", "pipeline_types", "lower_ident", "sql_templates", "interp_ident", "table_instance", "fmt_width", "span_frame", "range_sugar", "pl_fold", "lower_expr", "sql_relations", "anchor_names", "ident_kinds", "sql_case"]
+              "select_shape", "span_units", "sql_prec", "prql_prec", "literals", "set_ops", "desugar", "resolve_guards", "lex_strings", "limit_clause", "static_eval", "operator_tpl", "rel_names", "lower_cols", "vec_utils", "group_take", "flatten_sort", "star_exclude", "std_arity", "limit_select", "rq_shape", "star_cols", "func_env", "json_lits", "cte_define", "type_meet", "fmt_strings", "concat_ops", "sstring_query", "sstring_cols", "lineage_except", "sort_infer", "setop_pairs", "setops_reach", "tuple_unpack", "resolver_unwraps", "name_lookup", "frame_decls", "select_cols", "lower_transform", "sort_names", "positional_map", "fmt_interp", "datetime_lit", "lex_numbers", "rq_fold", "dialect_flags", "cid_inline", "module_names", "compose_errors", "lex_end_expr", "fmt_names", "header_args", "literal_rows", "tuple_helpers", "pipeline_types", "lower_ident", "sql_templates", "interp_ident", "table_instance", "fmt_width", "span_frame", "range_sugar", "pl_fold", "lower_expr", "sql_relations", "anchor_names", "ident_kinds", "sql_case", "literal_frame", "relation_literal"]
 
 
 def _c12_split_order(n):
@@ -281,7 +281,7 @@ claim("C08",
       "sqlparser's Display (leaves doubled quotes alone - read in its source, validated by the thorough-tier sweep on SQLite) and sqlformat (white space only, given "
       "its precondition) are trusted; str::parse, str::replace and format! are uninterpreted; date/time/interval arms are not under contract.")
 
-prop("C07", ["set_ops", "limit_clause", "literals", "rel_names", "cte_define", "sql_prec", "static_eval", "positional_map", "rq_fold", "dialect_flags", "literal_rows", "sql_templates", "operator_tpl", "sql_relations", "split_order", "sstring_cols", "sort_infer", "group_take"], select={"group_take": lambda n: n.split(".", 1)[1] in ("DT1", "DT2", "DT3", "DT4") or n.endswith(".safety"), "sort_infer": lambda n: n.split(".", 1)[1] in ("SI2", "SI6", "SI7", "sort_step.safety") or n.split(".", 1)[1].startswith("SI"), "sstring_cols": lambda n: n.split(".", 1)[1] in ("PN1", "PN2", "PN3", "SC1") or n.endswith(".safety"), "split_order": lambda n: n.split(".", 1)[1].startswith(("SO1.Union.", "SO1.Except.", "SO1.Intersect.")) or n.split(".", 1)[1] in ("is_split_required.safety",), "operator_tpl": lambda n: n.split(".", 1)[1] in ("TP4", "TP4v", "operator_lookup_slice.safety", "operator_lookup_slice.unwrap"), "static_eval": lambda n: n.split(".", 1)[1] in ("SE2w", "SE2i", "SE2x", "static_eval_case.safety"), "literals": lambda n: n.split(".", 1)[1] in ("EI1", "expr_of_i64.safety", "TL1i", "TL1f", "NE1", "FM1"), "sql_prec": lambda n: n.split(".", 1)[1].startswith("NP4.std_neg") or n.endswith(".safety")},
+prop("C07", ["set_ops", "limit_clause", "literals", "rel_names", "cte_define", "sql_prec", "static_eval", "positional_map", "rq_fold", "dialect_flags", "literal_rows", "sql_templates", "operator_tpl", "sql_relations", "split_order", "sstring_cols", "sort_infer", "group_take", "relation_literal"], select={"group_take": lambda n: n.split(".", 1)[1] in ("DT1", "DT2", "DT3", "DT4") or n.endswith(".safety"), "sort_infer": lambda n: n.split(".", 1)[1] in ("SI2", "SI6", "SI7", "sort_step.safety") or n.split(".", 1)[1].startswith("SI"), "sstring_cols": lambda n: n.split(".", 1)[1] in ("PN1", "PN2", "PN3", "SC1") or n.endswith(".safety"), "split_order": lambda n: n.split(".", 1)[1].startswith(("SO1.Union.", "SO1.Except.", "SO1.Intersect.")) or n.split(".", 1)[1] in ("is_split_required.safety",), "operator_tpl": lambda n: n.split(".", 1)[1] in ("TP4", "TP4v", "operator_lookup_slice.safety", "operator_lookup_slice.unwrap"), "static_eval": lambda n: n.split(".", 1)[1] in ("SE2w", "SE2i", "SE2x", "static_eval_case.safety"), "literals": lambda n: n.split(".", 1)[1] in ("EI1", "expr_of_i64.safety", "TL1i", "TL1f", "NE1", "FM1"), "sql_prec": lambda n: n.split(".", 1)[1].startswith("NP4.std_neg") or n.endswith(".safety")},
      not_covered="scope of every table / column reference, per-dialect grammar, empty projections, relation alias uniqueness (assign_names), "
                  "which dialects besides SQLite have no bare OFFSET (MySQL, BigQuery: the handler table is assumed, not executable here)")
 claim("C07",
